@@ -42,8 +42,15 @@ def make_cases(seed: int, tier: str, n_cases: int | None = None) -> list[dict]:
         r = rng(cs, "opts")
         if idx % 4 == 3:
             # probe packages: input forms that used to abort the tool (fixed list, see vsim/probes.py)
-            k = r.randint(8, 12)
-            names = [probe_names[(idx // 4 * 5 + j * 7 + seed) % len(probe_names)] for j in range(k)]
+            # every run of the check covers the whole list: the probe cases walk through it in slices; later passes
+            # (thorough tier) walk through a seeded shuffle of it, so that the probes meet other neighbours
+            n_probe_cases = max(1, n // 4)
+            k = max(10, -(-len(probe_names) // n_probe_cases))
+            start = (idx // 4) * k
+            order = list(probe_names)
+            if start // len(order):
+                rng(seed, PROP, "probe-pass", start // len(order)).shuffle(order)
+            names = [order[(start + j) % len(order)] for j in range(k)]
             pkg = probes.probe_package(sorted(set(names)))
         elif idx % 16 == 6:
             # layouts without any ordinary module that is analysed: only __init__ files (with code), or ordinary modules in
